@@ -206,7 +206,7 @@ def histories_options(chk, g, d):
     from ixpeobssim.irf import load_arf, load_mrf, DEFAULT_IRF_NAME
     seed = int(g.integers(1, 10 ** 6))
     du = int(g.integers(1, 4))
-    for opt in (dict(grayfilter=True), dict(charging=True, chrgtstep=100.), dict(onorbitcalib=True, octis=[(81., 86.), (87., 92.), (93., 98.)])):
+    for opt in (dict(grayfilter=True), dict(charging=True, chrgtstep=100.), dict(onorbitcalib=True, octis=[(81., 86.), (87., 92.), (93., 98.), (110., 116.)])):
         clear_caches()
         ref, _ = obssim('toy_point_source.py', seed, (du,), d, 'optref', duration=200., **opt)
         chk.case(dict(op='obssim', options=opt, seed=seed, du=du, history='cold'), nontrivial=False)
